@@ -174,23 +174,29 @@ func c18R1(r *Report) {
 	if !r.Anchor("R1", "tor.Torrent.dhtMode/useTrackers/useWebseeds", dhtMode != nil && useTrackers != nil && useWebseeds != nil) {
 		return
 	}
-	fieldGuard := func(b *ssa.BasicBlock, fv *types.Var, pred func(op token.Token, k int64, pol bool) bool) bool {
-		for _, g := range guardsOf(b) {
+	fieldMatch := func(fv *types.Var, pred func(op token.Token, k int64, pol bool) bool) func(g Guard) bool {
+		return func(g Guard) bool {
 			g = g.norm()
 			if f2, _ := loadedField(g.Cond); f2 == fv {
-				if pred(token.NEQ, 0, g.Pol) { // bool field: cond true == (field != false)
-					return true
-				}
-				continue
+				return pred(token.NEQ, 0, g.Pol) // bool field: cond true == (field != false)
 			}
 			bo, ok := g.Cond.(*ssa.BinOp)
 			if !ok {
-				continue
+				return false
 			}
 			if f2, _ := loadedField(bo.X); f2 == fv {
 				if k, okk := constInt(bo.Y); okk && pred(bo.Op, k, g.Pol) {
 					return true
 				}
+			}
+			return false
+		}
+	}
+	fieldGuard := func(b *ssa.BasicBlock, fv *types.Var, pred func(op token.Token, k int64, pol bool) bool) bool {
+		m := fieldMatch(fv, pred)
+		for _, g := range guardsOf(b) {
+			if m(g) {
+				return true
 			}
 		}
 		return false
@@ -213,9 +219,10 @@ func c18R1(r *Report) {
 			// mode > none: dominated by !(dhtMode <= DhtNone)
 			none, _ := configConst(p, "DhtNone")
 			normal, _ := configConst(p, "DhtNormal")
-			gated := fieldGuard(in.Block(), dhtMode, func(op token.Token, k int64, pol bool) bool {
+			// (a dominating test, or the outcome of a helper that makes it: port, ok := t.dhtAnnouncePort(ipv6))
+			gated := p.factHolds(in, fieldMatch(dhtMode, func(op token.Token, k int64, pol bool) bool {
 				return (op == token.LEQ && k == none && !pol) || (op == token.GTR && k == none && pol) || (op == token.EQL && k == none && !pol) || (op == token.NEQ && k == none && pol) || (op == token.GEQ && k > none && pol)
-			})
+			}), 0)
 			r.Check(gated, "R1", key+"/mode-not-none", cs.Pos(), "the DHT announce is dominated by the mode > none test", "dht.Announce is not dominated by the `dhtMode <= DhtNone -> return` gate: a torrent whose DHT mode is 'none' announces itself")
 			// port argument
 			port := cs.Common().Args[2]
